@@ -4,6 +4,7 @@ import (
 	"encoding/hex"
 	"encoding/json"
 	"fmt"
+	"os"
 	"strconv"
 	"strings"
 
@@ -179,7 +180,7 @@ func (cs *caseSet) input(idx ...int) string {
 		for _, l := range cs.preamble {
 			size += len(l)
 		}
-		if size < 36000 {
+		if size < 36000 || *mkCorpus != "" {
 			rc.Files, rc.Order = job.Files, job.Order
 			rc.DrvMain = job.Extra["drv/main.go"]
 		} else {
@@ -215,6 +216,11 @@ func (cs *caseSet) run() {
 		c.rep.Hist("op", strings.SplitN(o.Kind, " ", 2)[0]+" "+firstWord(o.Impl))
 		c.rep.Hist("impl-outcome", firstWord(o.ans))
 	}
+	for i := 0; i < len(cs.ops) && i < 400; i += 97 {
+		if len(c.rep.Samples) < 10 {
+			c.rep.Sample(cs.ops[i].Kind + ": " + summarize(cs.ops[i].Impl, 260) + " → " + summarize(cs.ops[i].ans, 200))
+		}
+	}
 	fail := func(i int, kind, why string, extra ...int) {
 		o := &cs.ops[i]
 		if o.Known != "" {
@@ -244,6 +250,7 @@ func (cs *caseSet) run() {
 			}
 		}
 	}
+	cs.emitCorpus()
 	if *noModel {
 		return
 	}
@@ -317,4 +324,33 @@ func dropCount(o *opCase, has bool) string {
 		}
 	}
 	return o.ans
+}
+
+// emitCorpus appends a sample of this batch as one self-contained replay case.
+func (cs *caseSet) emitCorpus() {
+	if *mkCorpus == "" || cs.repo || cs.b.job == nil {
+		return
+	}
+	step := len(cs.ops)/250 + 1
+	var idx []int
+	seenKind := map[string]int{}
+	for i, o := range cs.ops {
+		k := firstWord(o.Impl) + "/" + o.Kind
+		if i%step == 0 || seenKind[k] < 3 || o.Known != "" && seenKind["known"] < 12 {
+			if len(o.Impl) < 3000 {
+				idx = append(idx, i)
+				seenKind[k]++
+				if o.Known != "" {
+					seenKind["known"]++
+				}
+			}
+		}
+	}
+	rc := cs.input(idx...)
+	fh, err := os.OpenFile(*mkCorpus, os.O_APPEND|os.O_CREATE|os.O_WRONLY, 0o644)
+	if err != nil {
+		fatal("%v", err)
+	}
+	defer fh.Close()
+	fh.WriteString(rc + "\n")
 }
